@@ -3,6 +3,8 @@ package main
 import (
 	"verif/engine"
 	_ "verif/harness/c01"
+	_ "verif/harness/c02"
+	_ "verif/harness/c03"
 	_ "verif/harness/c04"
 	_ "verif/harness/c05"
 	_ "verif/harness/c07"
